@@ -126,7 +126,7 @@ def main():
                     tasks.append((target, v, tier))
             continue
         if a.prop in con.props and not con.assumed:
-            for v in (con.variants or [None]):
+            for v in con.all_variants():
                 tasks.append((target, v, tier))
     # lemmas (closed formulas over the contracts' vocabulary) registered for the property
     for modname, node, kw in w.reg.lemmas:
@@ -154,6 +154,14 @@ def main():
     for o in refuted:
         f = match_finding(findings['findings'], a.prop, o)
         (known if f else new).append((o, f))
+    # an obligation of a known finding that is refuted on one path / variant may stay undecided on another one (a
+    # satisfiable query with quantifiers): reported with the finding, provided the finding was really hit
+    hit = {f['id'] for _, f in known}
+    for o in list(undecided):
+        f = match_finding(findings['findings'], a.prop, o)
+        if f and f['id'] in hit:
+            undecided.remove(o)
+            known.append((o, f))
     os.makedirs(os.path.join(VERIF, 'replays', a.prop), exist_ok=True)
     lines = []
     seen_kf = set()
